@@ -78,6 +78,11 @@ func parseInitialState(initialState string) (*model.CreateRequest, error) {
 		return nil, errors.New("initial state is not valid")
 	}
 
+	// the operation type is optional in the initial state, however if it is provided it has to be 'create'
+	if createRequest.Operation != "" && createRequest.Operation != operation.TypeCreate {
+		return nil, errors.New("initial state is not a create request")
+	}
+
 	createRequest.Operation = operation.TypeCreate
 
 	return &createRequest, nil
